@@ -9,7 +9,7 @@ use serde::{Deserialize, Serialize};
 
 use crate::engine::data_types::*;
 use crate::mem_store::*;
-use crate::stringpack::StringPackerIterator;
+use crate::stringpack::{PackedBytesIterator, StringPackerIterator};
 
 #[derive(Serialize, Deserialize)]
 pub struct Column {
@@ -28,8 +28,10 @@ pub trait DataSource: fmt::Debug + Sync + Send {
     fn data_sections<'a>(&'a self) -> Vec<&'a dyn Data<'a>>;
     fn full_type(&self) -> Type;
 
-    fn decode<'a>(&'a self) -> BoxedData<'a> {
-        decode(&self.codec(), &self.data_sections())
+    /// `string_store` receives the bytes of strings that have to be materialised while decoding
+    /// (compressed or hex packed string columns) and must outlive the returned data.
+    fn decode<'a>(&'a self, string_store: &'a mut Vec<u8>) -> BoxedData<'a> {
+        decode(&self.codec(), &self.data_sections(), string_store)
     }
 }
 
@@ -581,7 +583,13 @@ impl From<Vec<OrderedFloat<f64>>> for DataSection {
     }
 }
 
-fn decode<'a>(codec: &Codec, sections: &[&'a dyn Data<'a>]) -> BoxedData<'a> {
+fn decode<'a>(
+    codec: &Codec,
+    sections: &[&'a dyn Data<'a>],
+    string_store: &'a mut Vec<u8>,
+) -> BoxedData<'a> {
+    // At most one op of a codec materialises strings.
+    let mut string_store = Some(string_store);
     let mut section_stack: Vec<BoxedData<'a>> = vec![sections[0].slice_box(0, sections[0].len())];
     for codec_op in codec.ops() {
         let arg0 = section_stack.first().unwrap();
@@ -804,15 +812,39 @@ fn decode<'a>(codec: &Codec, sections: &[&'a dyn Data<'a>]) -> BoxedData<'a> {
                 }
             }
             CodecOp::UnpackStrings => {
+                // Section 0 may have been LZ4/Pco decompressed by a preceding op, so the packed
+                // bytes are taken from the stack and copied into storage that outlives the result.
+                let store = string_store.take().expect("string store already used");
+                store.extend_from_slice(arg0.cast_ref_u8());
+                let packed: &'a [u8] = &*store;
                 let mut output = Vec::new();
-                let packed: &'a [u8] = sections[0].cast_ref_u8();
                 let iterator = unsafe { StringPackerIterator::from_slice(packed) };
                 for str in iterator {
                     output.push(str);
                 }
                 Box::new(output) as BoxedData
             }
-            CodecOp::UnhexpackStrings(_, _) => todo!(),
+            CodecOp::UnhexpackStrings(uppercase, _) => {
+                let store = string_store.take().expect("string store already used");
+                let mut lengths = Vec::new();
+                for elem in PackedBytesIterator::from_slice(arg0.cast_ref_u8()) {
+                    let string = if *uppercase {
+                        hex::encode_upper(elem)
+                    } else {
+                        hex::encode(elem)
+                    };
+                    store.extend_from_slice(string.as_bytes());
+                    lengths.push(string.len());
+                }
+                let bytes: &'a [u8] = &*store;
+                let mut output = Vec::with_capacity(lengths.len());
+                let mut offset = 0;
+                for len in lengths {
+                    output.push(unsafe { str::from_utf8_unchecked(&bytes[offset..offset + len]) });
+                    offset += len;
+                }
+                Box::new(output) as BoxedData
+            }
             CodecOp::Unknown => todo!(),
         };
         section_stack.pop();
